@@ -348,6 +348,63 @@ func C02(c *core.Ctx) {
 					"next hops given to the strategy: "+core.LeafSet(leaves)+" — elements of FindNextHopsEnc(Interest name | forwarding hint) only",
 					"next hops given to the strategy have a foreign origin: "+strings.Join(bad, "; ")+" (all origins "+core.LeafSet(leaves)+")")
 			}
+			// R2.3c: a forwarding-hint name reaches the FIB lookup only on paths that take an
+			// edge asserting "not reaching the producer region" (value-flow gate)
+			isHintName := func(v ssa.Value) bool {
+				u, ok := core.Strip(v).(*ssa.UnOp)
+				if !ok || u.Op != token.MUL {
+					return false
+				}
+				ia, ok := u.X.(*ssa.IndexAddr)
+				if !ok {
+					return false
+				}
+				root, path := core.FieldPath(ia.X)
+				return root == pkt && strings.Join(path, ".") == "L3.Interest.ForwardingHintV.Names"
+			}
+			isProdAtom := atomCallTrue("is-producer-region", callIs(core.CalleeID{Pkg: "fw/table", Recv: "*", Name: "IsProducer"}))
+			prodTrueTargets := map[*ssa.BasicBlock]bool{}
+			for _, f := range core.EdgeFacts(pii, isProdAtom) {
+				if f.Holds {
+					prodTrueTargets[f.E.To] = true
+				}
+			}
+			reaching := &core.Atom{Name: "reaching-producer-region", Match: func(cond ssa.Value) (int, int) {
+				phi, ok := core.Strip(cond).(*ssa.Phi)
+				if !ok {
+					return 0, 0
+				}
+				// a boolean flag set to true in a block entered on IsProducer()==true
+				var walk func(ph *ssa.Phi, seen map[*ssa.Phi]bool) bool
+				walk = func(ph *ssa.Phi, seen map[*ssa.Phi]bool) bool {
+					if seen[ph] {
+						return false
+					}
+					seen[ph] = true
+					for i, e := range ph.Edges {
+						if b, isC := core.ConstBool(e); isC && b && prodTrueTargets[ph.Block().Preds[i]] {
+							return true
+						}
+						if p2, ok := core.Strip(e).(*ssa.Phi); ok && walk(p2, seen) {
+							return true
+						}
+					}
+					return false
+				}
+				if walk(phi, map[*ssa.Phi]bool{}) {
+					return 1, -1
+				}
+				return 0, 0
+			}}
+			cutNotReaching, perR := core.CutEdges(pii, neg(reaching))
+			for _, ci := range core.FindCalls(pii, idFindNextHops) {
+				_, fargs := core.CallArgs(ci.Common())
+				flows := core.FlowPath(fargs[0], ci, isHintName, cutNotReaching, nil)
+				flowsAtAll := core.FlowPath(fargs[0], ci, isHintName, nil, nil)
+				c.Decide(!flows && perR[0] > 0 && flowsAtAll, "R2.3", "hint-lookup-only-outside-producer-region", c.Pos(ci),
+					"a forwarding-hint name reaches the FIB lookup only through the edge asserting that no hint name lies in the producer region",
+					fmt.Sprintf("a forwarding-hint name can be used for the FIB lookup although a hint name lies in this forwarder's producer region (the hint is not discarded on that path), or the hint is never used [flow avoiding ¬reaching edges=%v, ¬reaching edges=%d, hint flows at all=%v]", flows, perR[0], flowsAtAll))
+			}
 			// forwarding hint used for lookup only outside the producer region
 			isProd := atomCallTrue("is-producer-region", callIs(core.CalleeID{Pkg: "fw/table", Recv: "*", Name: "IsProducer"}))
 			facts := core.EdgeFacts(pii, isProd)
